@@ -367,6 +367,7 @@ LEVEL_TEXT = ("Proof (Lean 4), partial: compound unification is sound for the sp
               "selector.append equals `&`-suffix nesting on the specification model; complex unification (unify_relbox) is "
               "modelled and tied to the code by exact agreement only; every law is also evaluated on the implementation "
               "itself in each generated case.")
-LEVEL_NOTE = ("Partial: no soundness theorem for complex-selector unification; element-type unification soundness is a "
-              "hypothesis of the compound theorem; nesting/append models are those of the C19 family.")
+LEVEL_NOTE = ("Partial: unify soundness is proved for compound lists and complex-with-compound pairs, not when both sides "
+              "are complex (unify_relbox); pairs with a one-sided pseudo-element are outside the law; nesting/append "
+              "models are those of the C19 family.")
 TECHNIQUE = "Lean 4 theorems parametric in the unifier + exact differential correspondence + direct law check on the implementation"
